@@ -1,6 +1,7 @@
 (* Bit-level view of byte strings, as used by mediacommon's bits.ReadBits / bits.WriteBitsUnsafe:
    most significant bit first.  Executable, proof-free (lemmas in BitsProofs.v). *)
 From GVL Require Import NList.
+From GV_mpeg4audio Require Export WireF.
 Open Scope N_scope.
 
 (* the n low bits of v, most significant first *)
@@ -36,6 +37,6 @@ Fixpoint pack (bs : list bool) : list N :=
    when n = 0, which is out of range when pos is the end of the buffer: BPanic. *)
 Inductive bres := BOk (v : N) (rest : list bool) | BErr | BPanic.
 Definition read_bits (bs : list bool) (n : N) : bres :=
-  if nlen bs <? n then BErr else
+  if nshort n bs then BErr else
   if n =? 0 then (match bs with [] => BPanic | _ => BOk 0 bs end) else
   BOk (val_be 0 (ntake n bs)) (ndrop n bs).
